@@ -141,7 +141,19 @@ class quadtree(object):
 
     def search(self, pos):
         leaf = self.leaf(pos)
-        if leaf: return leaf.search_wave(pos)
+        if leaf:
+            elt = leaf.search_wave(pos)
+            if elt is None:
+                # The wave from the leaf cannot reach an element filed
+                # under a neighbouring node across a gap in the grid:
+                # fall back on all elements near the point.
+                root = self
+                while root.parent: root = root.parent
+                for elt in root.elements:
+                    if in_rectangle(pos, elt.bounding_box) and \
+                       elt.contains_point(pos): return elt
+                return None
+            return elt
         else: return None
 
     def leaf(self, pos):
